@@ -8,12 +8,13 @@
 (***************************************************************************)
 EXTENDS JasmSyntax, Json, IOUtils
 In == JsonDeserialize(IOEnv.JASM_IN)
-Sp(t, u) == [times |-> t, upper |-> u]
+Sp(t, u) == [times |-> t, upper |-> u, ints |-> FALSE]
 ASSUME JsonSerialize(IOEnv.JASM_OUT,
           [docs |-> [n \in DOMAIN In.patterns |->
                        [body  |-> Unparse(In.patterns[n], Sp("body", FALSE)),
                         sib   |-> Unparse(In.patterns[n], Sp("sib", FALSE)),
                         upper |-> Unparse(In.patterns[n], Sp("body", TRUE)),
+                        ints  |-> Unparse(In.patterns[n], [times |-> "body", upper |-> FALSE, ints |-> TRUE]),
                         back  |-> Parse(Unparse(In.patterns[n], Sp("body", FALSE))) = In.patterns[n]]]])
 VARIABLE x
 Init == x = 0
